@@ -425,10 +425,58 @@ func serviceLevelCors(ctx *core.Ctx, ci int, router string) {
 	ctx.Sig("service-level-cors|" + router)
 }
 
+// sharedDomainList: two filters configured from one list - one with all of it, one with its first entry only (a sub-slice of
+// the same array) - and later an entry of the list is replaced in place. Each filter allows what ITS configuration holds at
+// the time of the request.
+func sharedDomainList(ctx *core.Ctx, ci int, router string) {
+	trusted := []string{"https://a.example.org", "https://B.example.org", "https://c.example.org"}
+	mk := func(list []string) *restful.Container {
+		c := restful.NewContainer()
+		if router == "jsr311" {
+			c.Router(restful.RouterJSR311{})
+		}
+		cors := restful.CrossOriginResourceSharing{AllowedDomains: list, CookiesAllowed: true, Container: c}
+		c.Filter(cors.Filter)
+		ws := new(restful.WebService).Path("/shared")
+		ws.Route(ws.GET("/x").To(func(req *restful.Request, resp *restful.Response) { resp.Write([]byte("ok")) }))
+		c.Add(ws)
+		return c
+	}
+	long, short := mk(trusted), mk(trusted[:1])
+	probe := func(c *restful.Container, which, origin string, want bool, phase string) bool {
+		req := corsReq("GET", "/shared/x", origin, "", "")
+		out := rt.Run(c, rt.Dispatch, &req)
+		ctx.Eval(1)
+		ctx.Count("requests_through_filters_sharing_one_domain_list", 1)
+		ac := acHeaders(out.Rec.Hdr())
+		got := len(ac["Access-Control-Allow-Origin"]) == 1 && ac["Access-Control-Allow-Origin"][0] == origin
+		if got != want || (!want && len(ac) > 0) {
+			ctx.Violation(ci, "c08:shared-domain-list:"+which+":"+phase, fmt.Sprintf("filter with the %s list, Origin %q, %s: allowed by its configuration = %v, the response carries %v", which, origin, phase, want, ac),
+				map[string]interface{}{"list": trusted, "filter": which, "origin": origin, "access_control_headers": ac, "router": router})
+			return false
+		}
+		return true
+	}
+	ok := probe(long, "whole", "https://b.example.org", true, "first use") &&
+		probe(short, "one-entry", "https://b.example.org", false, "after the whole list was consulted") &&
+		probe(short, "one-entry", "https://A.example.org", true, "after the whole list was consulted") &&
+		probe(long, "whole", "https://c.example.org", true, "again") &&
+		probe(short, "one-entry", "https://c.example.org", false, "again")
+	if !ok {
+		return
+	}
+	trusted[1] = "https://d.example.org" // b is no longer trusted, d is
+	_ = probe(long, "whole", "https://b.example.org", false, "after the entry was replaced in the list") &&
+		probe(long, "whole", "https://D.example.org", true, "after the entry was replaced in the list") &&
+		probe(short, "one-entry", "https://d.example.org", false, "after the entry was replaced in the list") &&
+		probe(short, "one-entry", "https://a.example.org", true, "after the entry was replaced in the list")
+	ctx.Sig("shared-domain-list|" + router)
+}
+
 func c08(ctx *core.Ctx) {
 	quietLogs()
 	defer restful.EnableTracing(false)
-	ctx.Rule("generated CORS configurations (0-4 allowed domains +/- the .* wildcard, optional predicate over a fixed set, cookies, exposed headers, max-age, allowed methods/headers) on generated route tables, both routers; origins per allowed entry: exact, case variants, proper prefix/suffix, superstrings (entry.evil.com, evil-entry, x+entry), port/scheme variants, regex look-alikes (. -> x), trailing dot/slash/space/tab, host only, list 'a,a', null, empty, unicode, the request's own Host with either scheme; requests: route hit, other method, 404, OPTIONS with and without Access-Control-Request-Method, a plain handler registered with HandleWithFilter before the first filter; a quarter of the configurations with trace logging on; two CORS filters (container and WebService level) with configurations of their own on one request; four WebServices with a CORS filter of their own each (behind three container filters), requests for all of them in flight at once from 8 goroutines. Oracle: reference policy; not allowed / no Origin => no Access-Control-* header and complete response + event log equal to a twin container without the filter; allowed => Allow-Origin at most once and byte-equal to Origin, credentials only if configured. Non-trivial = a request carrying an Origin; distinct by (policy verdict, origin mutation kind, request kind, list size, predicate).")
+	ctx.Rule("generated CORS configurations (0-4 allowed domains +/- the .* wildcard, optional predicate over a fixed set, cookies, exposed headers, max-age, allowed methods/headers) on generated route tables, both routers; origins per allowed entry: exact, case variants, proper prefix/suffix, superstrings (entry.evil.com, evil-entry, x+entry), port/scheme variants, regex look-alikes (. -> x), trailing dot/slash/space/tab, host only, list 'a,a', null, empty, unicode, the request's own Host with either scheme; requests: route hit, other method, 404, OPTIONS with and without Access-Control-Request-Method, a plain handler registered with HandleWithFilter before the first filter; a quarter of the configurations with trace logging on; two CORS filters (container and WebService level) with configurations of their own on one request; four WebServices with a CORS filter of their own each (behind three container filters), requests for all of them in flight at once from 8 goroutines; two filters configured from one list (the whole list / a one-entry sub-slice of it), an entry of which is later replaced in place. Oracle: reference policy; not allowed / no Origin => no Access-Control-* header and complete response + event log equal to a twin container without the filter; allowed => Allow-Origin at most once and byte-equal to Origin, credentials only if configured. Non-trivial = a request carrying an Origin; distinct by (policy verdict, origin mutation kind, request kind, list size, predicate).")
 	ctx.Assume("predicate results are known from the configuration (fixed case-insensitive set) and cross-checked against a tap on the predicate")
 	configs := ctx.N(400, 80000)
 	for ci := 0; ci < configs; ci++ {
@@ -442,6 +490,9 @@ func c08(ctx *core.Ctx) {
 		ctx.Case(ci, core.JSON(p.cfg)+" table="+core.JSON(p.t))
 		if ci%10 == 5 || ci%10 == 8 {
 			serviceLevelCors(ctx, ci, router)
+		}
+		if ci%20 == 3 || ci%20 == 14 {
+			sharedDomainList(ctx, ci, router)
 		}
 		restful.EnableTracing(ci%8 == 3 || ci%8 == 6) // a quarter of the configurations with trace logging on
 		if ci%5 == 1 || ci%5 == 2 {
